@@ -1,9 +1,29 @@
 /-
-C18 helper lemmas for the DCT clause: an upper bound K = 4 for |IDCT(FDCT b) − b| by error
-analysis of the two fixed-point matrix products (`ForwardDCTFrom`, `InverseDCTFrom` are direct
-64×64 products, not butterflies).
+C18 helper lemmas for the DCT clause: the error analysis behind `idct_fdct_within_four`
+(|IDCT(FDCT b) − b| ≤ 4 for EVERY 8×8 byte block), for the two fixed-point matrix products of
+/repo/lib/lowleveljpeg/block.go (`ForwardDCTFrom`, `InverseDCTFrom` are direct 64×64 products
+with three rounding shifts, not butterflies).
+
+Notation (all integers; s j = src j − 128 ∈ [−128, 127]; k = 8v + u a coefficient, i, j pixels):
+  a k      = alphas16 u v                         (`aK`)
+  c k j    = c32 u v j = cos[..] · cos[..]        (`cK`)
+  S k      = Σ_j s j · c k j                      (sum32)
+  F k      = ((a k · ((S k + 2^15) >> 16)) + 2^31) >> 32          (fdctCoef)
+  w k i    = a k · ((c k i + 2^15) >> 16)         (`wL`)
+  T i      = Σ_k F k · w k i                      (isum32)
+  R i      = (T i + 2^31) >> 32                   (idctRaw)
+Then, exactly,
+  2^48 · T i − 2^80 · s i = Σ_j s j · E i j  +  Σ_k w k i · (2^48 · F k − a k · S k)
+with E i j = Σ_k w k i · a k · c k j − 2^80·[i = j]  (how far the two integer tables are from being
+inverse to each other) and |2^48 · F k − a k · S k| ≤ a k · 2^15 + 2^47 (the two rounding shifts of
+the FDCT).  So |2^48 T i − 2^80 s i| ≤ 128 · Σ_j |E i j| + Σ_k |w k i| · (a k · 2^15 + 2^47) =: budget i,
+a constant of the tables; `budget i ≤ 4.25·10^24 ≈ 3.5155 · 2^80` is checked by kernel evaluation
+for the 64 pixels (`Proof/JpegDctBudget*.lean`); with the final rounding (½) that gives
+|R i − s i| < 4.02, i.e. ≤ 4.
 -/
 import WuffsVerif.Proof.JpegDct
+import Mathlib.Tactic.Ring
+import Mathlib.Tactic.Linarith
 
 open WuffsVerif.Gen.C18 WuffsVerif.Jpeg WuffsVerif.Jpeg.Dct WuffsVerif.Jpeg.DctP
 
@@ -12,48 +32,248 @@ namespace WuffsVerif.Jpeg.DctB
 /-- `alphas16` for the coefficient index `k = 8v + u` -/
 def aK (k : Nat) : Int := alphas16 (k % 8) (k / 8)
 
-/-- `c16` of `InverseDCTFrom` for coefficient `k`, pixel `i` (list version) -/
-def c16L (k i : Nat) : Int := (c32L (k % 8) (k / 8) i + 32768) / 65536
+/-- `c32` for coefficient `k`, pixel `j` -/
+def cK (k j : Nat) : Int := c32L (k % 8) (k / 8) j
 
-/-- weight of coefficient `k` in the IDCT sum of pixel `i` -/
+/-- `c16` of `InverseDCTFrom` for coefficient `k`, pixel `i` -/
+def c16L (k i : Nat) : Int := (cK k i + 32768) / 65536
+
+/-- weight of coefficient `k` in the IDCT sum of pixel `i`: `alphas16 * c16` -/
 def wL (k i : Nat) : Int := aK k * c16L k i
+
+/-- weight of `sum32 k` in `2^48 · T i` -/
+def gL (i k : Nat) : Int := wL k i * aK k
 
 def absI (z : Int) : Int := if 0 ≤ z then z else -z
 
-/-- Σ over two lists -/
-def dotL : List Int → List Int → Int
-  | a :: as, b :: bs => a * b + dotL as bs
-  | _, _ => 0
+theorem absI_nonneg (z : Int) : 0 ≤ absI z := by unfold absI; split <;> omega
 
-def sumL : List Int → Int
+/-- Σ_k a k * b k over a list of indices -/
+def dot (a b : Nat → Int) : List Nat → Int
   | [] => 0
-  | a :: as => a + sumL as
+  | k :: ks => a k * b k + dot a b ks
 
-/-- the cosine row `[cosAtL x 0, …, cosAtL x 7]` -/
-def cosRow (x : Nat) : List Int := (List.range 8).map (fun u => cosAtL x u)
+/-- Σ_k |a k| * b k -/
+def adot (a b : Nat → Int) : List Nat → Int
+  | [] => 0
+  | k :: ks => absI (a k) * b k + adot a b ks
 
-/-- g i k = w k i * a k, as 8 rows (v) of 8 (u) -/
-def gRows (i : Nat) : List (List Int) :=
-  (List.range 8).map (fun v => (List.range 8).map (fun u => wL (8 * v + u) i * aK (8 * v + u)))
+/-- Σ_k |a k| -/
+def asum (a : Nat → Int) : List Nat → Int
+  | [] => 0
+  | k :: ks => absI (a k) + asum a ks
 
-/-- h i x = [Σ_u g(8v+u) cx(x,u)]_v -/
-def hRow (g : List (List Int)) (x : Nat) : List Int := g.map (fun r => dotL r (cosRow x))
+/-! ### generic facts about `dot` -/
 
-def colSum (i x : Nat) (h : List Int) : Int :=
-  sumL ((List.range 8).map (fun y => absI (dotL h (cosRow y) - (if 8 * y + x = i then 1208925819614629174706176 else 0))))
+theorem dot_congr (a b c d : Nat → Int) (l : List Nat) (h : ∀ k ∈ l, a k * b k = c k * d k) :
+    dot a b l = dot c d l := by
+  induction l with
+  | nil => rfl
+  | cons k ks ih =>
+    simp only [dot]
+    rw [h k List.mem_cons_self, ih (fun k' hk' => h k' (List.mem_cons_of_mem _ hk'))]
 
-def e1Sum (i : Nat) : Int :=
-  let g := gRows i
-  sumL ((List.range 8).map (fun x => colSum i x (hRow g x)))
+theorem dot_zero_right (a : Nat → Int) (l : List Nat) : dot a (fun _ => 0) l = 0 := by
+  induction l with
+  | nil => rfl
+  | cons k ks ih => simp only [dot, ih]; simp
 
-def e3Sum (i : Nat) : Int :=
-  sumL ((List.range 64).map (fun k => absI (wL k i) * (aK k * 32768 + 140737488355328)))
+theorem dot_add_right (a b c : Nat → Int) (l : List Nat) :
+    dot a (fun j => b j + c j) l = dot a b l + dot a c l := by
+  induction l with
+  | nil => rfl
+  | cons k ks ih => simp only [dot, ih]; ring
 
-def budget (i : Nat) : Int := 128 * e1Sum i + e3Sum i
+theorem dot_sub_right (a b c : Nat → Int) (l : List Nat) :
+    dot a (fun j => b j - c j) l = dot a b l - dot a c l := by
+  induction l with
+  | nil => rfl
+  | cons k ks ih => simp only [dot, ih]; ring
 
-def budgetOK (i : Nat) : Bool := decide (budget i ≤ 4250000000000000000000000)
+theorem dot_smul_right (a b : Nat → Int) (t : Int) (l : List Nat) :
+    dot a (fun j => t * b j) l = t * dot a b l := by
+  induction l with
+  | nil => simp [dot]
+  | cons k ks ih => simp only [dot, ih]; ring
 
-set_option maxRecDepth 1000000 in
-theorem budget_ok0 : (List.range 8).all budgetOK = true := by decide +kernel
+/-- exchange of the two summations -/
+theorem dot_swap (a s : Nat → Int) (c : Nat → Nat → Int) (l m : List Nat) :
+    dot a (fun k => dot s (c k) m) l = dot s (fun j => dot a (fun k => c k j) l) m := by
+  induction l with
+  | nil => simp only [dot]; rw [dot_zero_right]
+  | cons k ks ih =>
+    simp only [dot]
+    rw [ih, dot_add_right, dot_smul_right]
+
+/-- Σ_j s j · (c·[j = i]) = (number of occurrences of i) · s i · c -/
+theorem dot_ind (s : Nat → Int) (i : Nat) (c : Int) (l : List Nat) :
+    dot s (fun j => if j = i then c else 0) l = (l.count i : Int) * (s i * c) := by
+  induction l with
+  | nil => simp [dot]
+  | cons j js ih =>
+    simp only [dot, ih]
+    by_cases h : j = i
+    · subst h
+      rw [List.count_cons_self, if_pos rfl]
+      push_cast
+      ring
+    · rw [List.count_cons_of_ne h, if_neg h]
+      ring
+
+theorem count_range64 : ∀ i, i < 64 → (List.range 64).count i = 1 := by decide
+
+/-- a linear form on the box [−128, 127]^n is at most 128 · (sum of |coefficients|) -/
+theorem dot_box (s E : Nat → Int) (hs : ∀ j, -128 ≤ s j ∧ s j ≤ 127) (l : List Nat) :
+    -(128 * asum E l) ≤ dot s E l ∧ dot s E l ≤ 128 * asum E l := by
+  induction l with
+  | nil => simp [dot, asum]
+  | cons j js ih =>
+    simp only [dot, asum]
+    have h1 := (hs j).1
+    have h2 := (hs j).2
+    have key : -(128 * absI (E j)) ≤ s j * E j ∧ s j * E j ≤ 128 * absI (E j) := by
+      unfold absI
+      split
+      · constructor <;> nlinarith
+      · constructor <;> nlinarith
+    omega
+
+/-- perturbation of a weighted sum: if every `D · x k` is within `e k` of `y k` then
+    `D · Σ x k · w k` is within `Σ |w k| · e k` of `Σ y k · w k` -/
+theorem dot_perturb (x y w e : Nat → Int) (D : Int) (l : List Nat)
+    (h : ∀ k ∈ l, -(e k) ≤ D * x k - y k ∧ D * x k - y k ≤ e k) :
+    -(adot w e l) ≤ D * dot x w l - dot y w l ∧ D * dot x w l - dot y w l ≤ adot w e l := by
+  induction l with
+  | nil => simp [dot, adot]
+  | cons k ks ih =>
+    have ih' := ih (fun k' hk' => h k' (List.mem_cons_of_mem _ hk'))
+    have hk := h k List.mem_cons_self
+    simp only [dot, adot]
+    have key : -(absI (w k) * e k) ≤ (D * x k - y k) * w k ∧ (D * x k - y k) * w k ≤ absI (w k) * e k := by
+      unfold absI
+      split
+      · constructor <;> nlinarith
+      · constructor <;> nlinarith
+    have e1 : D * (x k * w k + dot x w ks) - (y k * w k + dot y w ks) =
+        (D * x k - y k) * w k + (D * dot x w ks - dot y w ks) := by ring
+    rw [e1]
+    omega
+
+/-! ### the model's sums are `dot`s -/
+
+theorem sum32_eq_dot (s : Nat → Int) (k : Nat) (l : List Nat) :
+    sum32 s (k % 8) (k / 8) l = dot s (cK k) l := by
+  induction l with
+  | nil => rfl
+  | cons j js ih => simp only [sum32, dot, ih, c32_eq, cK]
+
+theorem isum32L_eq_dot (f : Nat → Int) (i : Nat) (l : List Nat) :
+    isum32L f i l = dot f (fun k => wL k i) l := by
+  induction l with
+  | nil => rfl
+  | cons k ks ih => simp only [isum32L, dot, ih, wL, aK, c16L, cK]
+
+/-! ### the two rounding shifts of `ForwardDCTFrom` -/
+
+theorem aK_nonneg (k : Nat) : 0 ≤ aK k := by
+  unfold aK alphas16 halfAlpha16
+  split <;> split <;> decide
+
+/-- `2^48 · result0` is within `a·2^15 + 2^47` of `a · sum32` -/
+theorem fdctPost_err (a S : Int) (ha : 0 ≤ a) :
+    -(a * 32768 + 140737488355328) ≤ 281474976710656 * fdctPost a S - a * S ∧
+    281474976710656 * fdctPost a S - a * S ≤ a * 32768 + 140737488355328 := by
+  unfold fdctPost
+  simp only
+  generalize hm : (S + 32768) / 65536 = m
+  have m1 : 65536 * m ≤ S + 32768 := by rw [← hm]; omega
+  have m2 : S + 32768 < 65536 * m + 65536 := by rw [← hm]; omega
+  generalize hp : a * m = p
+  generalize hF : (p + 2147483648) / 4294967296 = F
+  have f1 : 4294967296 * F ≤ p + 2147483648 := by rw [← hF]; omega
+  have f2 : p + 2147483648 < 4294967296 * F + 4294967296 := by rw [← hF]; omega
+  have d1 : a * (65536 * m - S) ≤ a * 32768 := Int.mul_le_mul_of_nonneg_left (by omega) ha
+  have d2 : a * (-32768) ≤ a * (65536 * m - S) := Int.mul_le_mul_of_nonneg_left (by omega) ha
+  have e1 : a * (65536 * m - S) = 65536 * p - a * S := by rw [← hp]; ring
+  have e2 : a * (-32768) = -(a * 32768) := by ring
+  rw [e1] at d1 d2
+  rw [e2] at d2
+  constructor <;> omega
+
+/-! ### the tables are nearly inverse to each other -/
+
+/-- `M i j = Σ_k w k i · a k · c k j`: the composition IDCT∘FDCT with the roundings left out, scaled by 2^80 -/
+def mL (i j : Nat) : Int := dot (gL i) (fun k => cK k j) (List.range 64)
+
+/-- `E i j = M i j − 2^80 · [j = i]` -/
+def eL (i j : Nat) : Int := mL i j - (if j = i then 1208925819614629174706176 else 0)
+
+/-- the rounding allowance of coefficient `k` in `2^48 · F k` -/
+def rnd (k : Nat) : Int := aK k * 32768 + 140737488355328
+
+/-- the error budget of pixel `i` for `2^48 · T i − 2^80 · s i` -/
+def budget (i : Nat) : Int :=
+  128 * asum (eL i) (List.range 64) + adot (fun k => wL k i) rnd (List.range 64)
+
+/-- **The error identity, bounded**: for every block of bytes and every pixel `i < 64`,
+    `|2^48 · T i − 2^80 · s i| ≤ budget i`, where `T i` is the IDCT accumulator run on the exact
+    (unconverted) FDCT outputs. -/
+theorem acc_error (src : Array Nat) (hsrc : ∀ j, src.getD j 0 ≤ 255) (i : Nat) (hi : i < 64) :
+    let s := fun j => ((src.getD j 0 : Nat) : Int) - 128
+    let T := dot (fdctCoef src) (fun k => wL k i) (List.range 64);
+    (-(budget i) ≤ 281474976710656 * T - 1208925819614629174706176 * s i) ∧
+    281474976710656 * T - 1208925819614629174706176 * s i ≤ budget i := by
+  intro s T
+  have hs : ∀ j, -128 ≤ s j ∧ s j ≤ 127 := by
+    intro j
+    have := hsrc j
+    show -128 ≤ ((src.getD j 0 : Nat) : Int) - 128 ∧ ((src.getD j 0 : Nat) : Int) - 128 ≤ 127
+    omega
+  -- step 1: each coefficient against a k · S k
+  let S := fun k => dot s (cK k) (List.range 64)
+  have hF : ∀ k ∈ List.range 64, -(rnd k) ≤ 281474976710656 * fdctCoef src k - aK k * S k ∧
+      281474976710656 * fdctCoef src k - aK k * S k ≤ rnd k := by
+    intro k _
+    have := fdctPost_err (aK k) (S k) (aK_nonneg k)
+    have e : fdctCoef src k = fdctPost (aK k) (S k) := by
+      show fdctPost (alphas16 (k % 8) (k / 8)) (sum32 s (k % 8) (k / 8) (List.range 64)) = _
+      rw [sum32_eq_dot]; rfl
+    rw [e]
+    exact this
+  have p := dot_perturb (fdctCoef src) (fun k => aK k * S k) (fun k => wL k i) rnd 281474976710656
+    (List.range 64) hF
+  -- step 2: Σ_k (a k · S k) · w k i = Σ_j s j · M i j
+  have sw : dot (fun k => aK k * S k) (fun k => wL k i) (List.range 64) = dot s (mL i) (List.range 64) := by
+    rw [dot_congr (fun k => aK k * S k) (fun k => wL k i) (gL i) S (List.range 64)
+      (fun k _ => by show aK k * S k * wL k i = wL k i * aK k * S k; ring)]
+    exact dot_swap (gL i) s cK (List.range 64) (List.range 64)
+  -- step 3: subtract the diagonal
+  have dg : dot s (eL i) (List.range 64) = dot s (mL i) (List.range 64) - 1208925819614629174706176 * s i := by
+    show dot s (fun j => mL i j - (if j = i then 1208925819614629174706176 else 0)) (List.range 64) = _
+    rw [dot_sub_right, dot_ind, count_range64 i hi]
+    push_cast
+    ring
+  have bx := dot_box s (eL i) hs (List.range 64)
+  rw [sw] at p
+  unfold budget
+  show -(128 * asum (eL i) (List.range 64) + adot (fun k => wL k i) rnd (List.range 64)) ≤
+      281474976710656 * T - 1208925819614629174706176 * s i ∧
+    281474976710656 * T - 1208925819614629174706176 * s i ≤
+      128 * asum (eL i) (List.range 64) + adot (fun k => wL k i) rnd (List.range 64)
+  have pT : dot (fdctCoef src) (fun k => wL k i) (List.range 64) = T := rfl
+  rw [pT] at p
+  omega
+
+/-- from the accumulator to `result0` of `InverseDCTFrom`: with `budget i ≤ 4.25·10^24 < 3.52·2^80`
+    the final rounding shift lands within 4 of `s i` -/
+theorem raw_within_four (T si B : Int)
+    (h1 : -B ≤ 281474976710656 * T - 1208925819614629174706176 * si)
+    (h2 : 281474976710656 * T - 1208925819614629174706176 * si ≤ B)
+    (hB : B ≤ 4250000000000000000000000) :
+    -4 ≤ (T + 2147483648) / 4294967296 - si ∧ (T + 2147483648) / 4294967296 - si ≤ 4 := by
+  generalize hR : (T + 2147483648) / 4294967296 = R
+  have r1 : 4294967296 * R ≤ T + 2147483648 := by rw [← hR]; omega
+  have r2 : T + 2147483648 < 4294967296 * R + 4294967296 := by rw [← hR]; omega
+  constructor <;> omega
 
 end WuffsVerif.Jpeg.DctB
